@@ -192,7 +192,7 @@ pub fn run_process(files: &Files, root: &str, loaded: Option<&Loaded>, price_db:
     let r = sx::catch(move || {
         let arena = Bump::new();
         let mut ctx = ReportContext::new(&arena);
-        let opts = report::ProcessOptions { price_db_path: pdb.map(PathBuf::from) };
+        let opts = { let mut o = report::ProcessOptions::default(); o.price_db_path = pdb.map(PathBuf::from); o };
         let res = report::process(&mut ctx, fake_loader(&files2, &root2), &opts);
         match res {
             Ok(mut ledger) => {
